@@ -131,6 +131,8 @@ type c07Res struct {
 	V13       bool       `json:"v13"`
 	Drop      int        `json:"drop"`
 	Early     bool       `json:"early"` // real-time session with Writes issued before and during the handshake
+	PostDrop  int        `json:"post_drop"` // index (after the server's establishment) of the dropped post-handshake datagram, -1 none
+	KUDrop    int        `json:"ku_drop"`   // index (after the first UpdateKeys call) of the dropped datagram, -1 none
 	Done      bool       `json:"done"`
 	Err       string     `json:"err,omitempty"`
 	Datagrams int        `json:"datagrams"`
@@ -155,6 +157,7 @@ type c07Res struct {
 	Target    string `json:"target,omitempty"`
 	MarkerHex string `json:"marker_hex,omitempty"`
 	MarkerRead bool  `json:"marker_read"` // Read returned the marker (violation)
+	Queued     int   `json:"queued"`      // items in the target's Read queue right after the injection, handshake still running
 	Effect    string `json:"effect,omitempty"`
 }
 
@@ -265,6 +268,16 @@ func c07LabelDatagram(d vDatagram, sender, receiver *Conn, v13 bool, add func(l 
 		body := rec[h.Size():]
 		lab := c07Label{From: d.From, V13: v13, CT: int(h.ContentType), Epoch: int(h.Epoch)}
 		if h.Epoch == 0 || h.ContentType == protocol.ContentTypeChangeCipherSpec {
+			if h.ContentType == protocol.ContentTypeHandshake && len(body) >= 12 {
+				lab.HT = int(body[0])
+			}
+			add(lab)
+
+			continue
+		}
+		if v13 {
+			// DTLS 1.3 protects with the unified header only: a DTLSPlaintext-framed record is cleartext whatever
+			// epoch its header claims
 			if h.ContentType == protocol.ContentTypeHandshake && len(body) >= 12 {
 				lab.HT = int(body[0])
 			}
@@ -474,6 +487,26 @@ type c07Net struct {
 	next      int
 	drop      int
 	onDeliver func()
+	// post-handshake loss (virtual-time sessions): drop the postK-th datagram emitted after the server's
+	// handshake was established, and the kuM-th datagram emitted after the first UpdateKeys call
+	postK, estIdx int
+	kuM, kuIdx    int
+}
+
+func (n *c07Net) lose(d vDatagram) bool {
+	if d.Idx == n.drop {
+		return true
+	}
+	if n.postK >= 0 {
+		if n.estIdx < 0 && n.lab.Server.Conn.isHandshakeCompletedSuccessfully() {
+			n.estIdx = d.Idx
+		}
+		if n.estIdx >= 0 && d.Idx == n.estIdx+n.postK {
+			return true
+		}
+	}
+
+	return n.kuM >= 0 && n.kuIdx >= 0 && d.Idx == n.kuIdx+n.kuM
 }
 
 func (n *c07Net) settle() {
@@ -505,7 +538,7 @@ func (n *c07Net) deliverNew() bool {
 func (n *c07Net) run(done func() bool, limit time.Duration) bool {
 	if !n.real {
 		n.lab.Pump.Policy = func(d vDatagram) (vAction, int) {
-			if d.Idx == n.drop {
+			if n.lose(d) {
 				return vDrop, 0
 			}
 
@@ -553,15 +586,19 @@ func (n *c07Net) drain(limit time.Duration) {
 	}
 }
 
-func c07Session(t *testing.T, v c07Variant, rng *vRand, drop int, mtu int, early bool) c07Res {
+func c07Session(t *testing.T, v c07Variant, rng *vRand, drop int, mtu int, early bool, post ...int) c07Res {
 	t.Helper()
-	res := c07Res{Kind: "session", Variant: v.Name, V13: v.V13, Drop: drop, Stage: -1, Early: early}
+	postK, kuM := -1, -1
+	if len(post) == 2 {
+		postK, kuM = post[0], post[1]
+	}
+	res := c07Res{Kind: "session", Variant: v.Name, V13: v.V13, Drop: drop, Stage: -1, Early: early, PostDrop: postK, KUDrop: kuM}
 	ccfg, scfg := v.mk()
 	if mtu > 0 {
 		ccfg.MTU, scfg.MTU = mtu, mtu
 	}
 	lab := newLab(t, ccfg, scfg)
-	net := &c07Net{lab: lab, real: early, drop: drop}
+	net := &c07Net{lab: lab, real: early, drop: drop, postK: postK, estIdx: -1, kuM: kuM, kuIdx: -1}
 	wr := &c07Writer{}
 	estC := lab.Client.Conn.isHandshakeCompletedSuccessfully
 	estS := lab.Server.Conn.isHandshakeCompletedSuccessfully
@@ -636,6 +673,9 @@ func c07Session(t *testing.T, v c07Variant, rng *vRand, drop int, mtu int, early
 		if v.V13 {
 			// key updates, with traffic in between
 			for i, p := range []*vPeer{lab.Client, lab.Server} {
+				if net.kuIdx < 0 {
+					net.kuIdx = lab.Net.count()
+				}
 				errc := make(chan error, 1)
 				go func(p *vPeer, req bool) {
 					ctx, cancel := context.WithTimeout(context.Background(), 20*time.Second)
@@ -769,7 +809,9 @@ func c07Inject(t *testing.T, v c07Variant, rng *vRand, stage int, form int) c07R
 	mk := func(target *Conn) []byte {
 		d := make([]byte, 13, 13+len(marker)+8)
 		d[0], d[1], d[2] = 23, 0xfe, 0xfd
-		binary.BigEndian.PutUint32(d[7:], uint32(0x20000+rng.intn(1<<20))) //nolint:gosec
+		// a record number just ahead of the genuine sender's, inside the anti-replay window (a far-future one,
+		// once accepted, would push the genuine epoch-0 records out of the window and hide the delivery)
+		binary.BigEndian.PutUint32(d[7:], uint32(24+rng.intn(16))) //nolint:gosec
 		body := marker
 		switch form {
 		case 1:
@@ -810,6 +852,10 @@ func c07Inject(t *testing.T, v c07Variant, rng *vRand, stage int, form int) c07R
 		synctest.Wait()
 		if lab.Net.count() > before {
 			effect = append(effect, "emit")
+		}
+		if !p.Conn.isHandshakeCompletedSuccessfully() {
+			// nobody reads before establishment: whatever sits in the Read queue now was put there by this record
+			res.Queued = len(p.Conn.decrypted)
 		}
 		if p.handshakeDone() && p.Err != nil {
 			effect = append(effect, "hs-abort")
@@ -884,6 +930,21 @@ func TestVerifC07(t *testing.T) {
 				out.emit(res)
 				if r > 0 {
 					break
+				}
+			}
+			if v.V13 && r == 0 {
+				// post-handshake loss: the k-th datagram after establishment (ticket, its ACK ...), the m-th after
+				// the first UpdateKeys call (KeyUpdate, its ACK, the requested KeyUpdate ...): retransmissions of
+				// post-handshake messages are records too
+				for k := 0; k < 6; k++ {
+					var res c07Res
+					vBubble(t, func(t *testing.T) { res = c07Session(t, v, rng, -1, 0, false, k, -1) })
+					out.emit(res)
+				}
+				for m := 0; m < 5; m++ {
+					var res c07Res
+					vBubble(t, func(t *testing.T) { res = c07Session(t, v, rng, -1, 0, false, -1, m) })
+					out.emit(res)
 				}
 			}
 			// real time: Writes before and during the handshake (no loss, then the first flight-5/flight-4 datagram lost)
